@@ -544,6 +544,49 @@ Proof.
   apply pc_updp. intros p. reflexivity.
 Qed.
 
+(* ---------- excluded marks are likewise not touched by providesReturns ---------- *)
+Definition px_at (l : list prov) (j : nat) := option_map p_excluded (getp l j).
+
+Lemma px_updp l i f : (forall p, p_excluded (f p) = p_excluded p) -> forall j, px_at (updp i f l) j = px_at l j.
+Proof.
+  intros Hf j. unfold px_at. rewrite getp_updp. destruct (getp l j) as [p|]; simpl; [|reflexivity].
+  destruct (i =? j); [rewrite Hf|]; reflexivity.
+Qed.
+
+Lemma set_rmap_excluded k m p : p_excluded (set_rmap k m p) = p_excluded p.
+Proof. destruct k; reflexivity. Qed.
+
+Lemma px_add_dep pos param outParam t funcs dep j : px_at (add_dep pos param outParam t funcs dep) j = px_at funcs j.
+Proof.
+  unfold add_dep.
+  match goal with |- px_at (if ?c then ?a else ?b) j = _ => destruct c end;
+    repeat (rewrite px_updp by (intros p; reflexivity)); reflexivity.
+Qed.
+
+Lemma px_fold_add_dep pos param outParam t : forall deps funcs j,
+  px_at (fold_left (add_dep pos param outParam t) deps funcs) j = px_at funcs j.
+Proof.
+  induction deps as [|d r IH]; intros funcs j; cbn [fold_left]; [reflexivity|]. rewrite IH. apply px_add_dep.
+Qed.
+
+Lemma px_req_step te pos avail param outParam fs t j : px_at (req_step te pos avail param outParam fs t) j = px_at fs j.
+Proof.
+  unfold req_step. destruct (t =? te_noT te); [reflexivity|].
+  destruct (best_match te fs avail t) as [[found deps]|].
+  - rewrite px_fold_add_dep. apply px_updp. intros p. apply set_rmap_excluded.
+  - apply px_updp. intros p. reflexivity.
+Qed.
+
+Lemma px_require te pos avail param outParam funcs j : px_at (require_parameters te pos avail param outParam funcs) j = px_at funcs j.
+Proof.
+  rewrite require_parameters_unfold.
+  match goal with |- px_at (fold_left _ ?tys ?init) j = _ =>
+    assert (H : forall l fs, px_at (fold_left (req_step te pos avail param outParam) l fs) j = px_at fs j)
+      by (induction l as [|t r IH]; intros fs; cbn [fold_left]; [reflexivity|rewrite IH; apply px_req_step]);
+    rewrite H end.
+  apply px_updp. intros p. reflexivity.
+Qed.
+
 Lemma provide_fst te pos avail param layer funcs j :
   wv_at (fst (provide_parameters te pos avail param layer funcs)) j = wv_at funcs j /\
   pc_at (fst (provide_parameters te pos avail param layer funcs)) j = pc_at funcs j.
@@ -853,4 +896,33 @@ Proof.
     specialize (Us j). rewrite Hp in Us. simpl in Us. destruct (getp fs0 j) as [q|] eqn:Hq; [|discriminate].
     unfold getp in Hq. apply nth_opt_lt in Hq. lia.
   - intros j p _ Hp Hc. apply (Uw j p); [lia|exact Hp|exact Hc].
+Qed.
+
+(* the excluded marks after providesReturns *)
+Lemma px_provide te pos avail param layer funcs j : px_at (fst (provide_parameters te pos avail param layer funcs)) j = px_at funcs j.
+Proof. unfold provide_parameters. cbn [fst]. apply px_updp. intros p. reflexivity. Qed.
+
+Lemma px_down_step te initPos st i j : px_at (fst (down_step te initPos st i)) j = px_at (fst st) j.
+Proof.
+  destruct st as [fs avail]. unfold down_step. destruct (flagp p_cannot fs i); [reflexivity|].
+  rewrite px_provide, px_require. cbn [fst].
+  destruct (flagp (fun p => class_eqb (p_class p) ClInvoke) fs i); [|reflexivity].
+  destruct initPos as [ip|]; [|reflexivity]. rewrite px_require. apply px_updp. intros p. reflexivity.
+Qed.
+
+Lemma px_up_step te n st i j : px_at (fst (up_step te n st i)) j = px_at (fst st) j.
+Proof.
+  destruct st as [fs avail]. unfold up_step. destruct (flagp p_cannot fs i); [reflexivity|].
+  rewrite px_provide, px_require. reflexivity.
+Qed.
+
+Lemma provides_returns_px te funcs j : px_at (provides_returns te funcs) j = px_at funcs j.
+Proof.
+  rewrite provides_returns_unfold. cbv zeta.
+  assert (U : forall l st, px_at (fst (fold_left (up_step te (length funcs)) l st)) j = px_at (fst st) j).
+  { induction l as [|i r IH]; intros st; cbn [fold_left]; [reflexivity|]. rewrite IH. apply px_up_step. }
+  assert (D : forall ip l st, px_at (fst (fold_left (down_step te ip) l st)) j = px_at (fst st) j).
+  { intros ip. induction l as [|i r IH]; intros st; cbn [fold_left]; [reflexivity|]. rewrite IH. apply px_down_step. }
+  rewrite U. cbn [fst]. rewrite D. cbn [fst]. unfold px_at, getp. rewrite nth_opt_map.
+  destruct (nth_opt j funcs); reflexivity.
 Qed.
